@@ -211,6 +211,10 @@ Consistent(u, v, c) == H(u) <= c + H(v)       \* h(u) <= c(u,v) + h(v)
 NextSssp ==
     \/ CAddVertex
     \/ \E u \in V, v \in V, c \in W :
+          \* LBTRRT adds the same edge again (same states, same length): an exact duplicate.  A parallel
+          \* arc of a different weight is a second path whose cost can tie with a third one, so under the
+          \* no-ties assumption only duplicates are offered
+          /\ (TieFreeOnly /\ <<u, v>> \in Arcs(wt)) => wt[<<u, v>>] = c
           /\ CAddArc(u, v, c) /\ Small(wt')
           /\ TieFreeOnly => TieFree(wt', nv, 0)
     \/ \E u \in V, v \in V : CRemoveArc(u, v)
